@@ -42,6 +42,36 @@ def sampleVal (n k : Nat) : Nat → Bool := fun j =>
 
 def samples : Nat := 4096
 
+/-- EXACT test of `r(v) = b(v ∘ g)` for two reduced diagrams, any width: memoised simultaneous walk from the two
+    roots. If the functions are equal every node of `r` is paired with exactly one node of `b` (both are
+    reduced), so more than `r.size + b.size` visited pairs — or two different terminals — refute the identity. -/
+def sameFunctionUnder (b r : Arr) (g : Nat → Option Nat) : Bool := Id.run do
+  let inf := 1000000
+  let budget := r.size + b.size + 4
+  let mut stack : Array (Nat × Nat) := #[(root r, root b)]
+  let mut seen : Std.HashSet (Nat × Nat) := {}
+  for _ in [0:3 * budget] do
+    match stack.back? with
+    | none => return true
+    | some (p, q) =>
+      stack := stack.pop
+      if seen.contains (p, q) then continue
+      seen := seen.insert (p, q)
+      if seen.size > budget then return false
+      if p < 2 && q < 2 then
+        if p != q then return false
+      else
+        let nr := r[p]?.getD default
+        let nb := b[q]?.getD default
+        let vr := if p < 2 then inf else nr.var
+        let vb := if q < 2 then inf else (match g nb.var with | some y => y | none => inf + 1)
+        if vb == inf + 1 then return false
+        let d := min vr vb
+        let (pl, ph) := if vr == d then (nr.low, nr.high) else (p, p)
+        let (ql, qh) := if vb == d then (nb.low, nb.high) else (q, q)
+        stack := (stack.push (pl, ql)).push (ph, qh)
+  return stack.isEmpty
+
 def firstFail (xs : List (Option String)) : Option String := xs.findSome? id
 
 /-- `r` is a valid diagram over `m` variables, `r(v) = b(v ∘ g)` on all valuations of the first `N`
@@ -52,6 +82,7 @@ def checkResult (b r : Arr) (m N : Nat) (g : Nat → Option Nat) : Option String
     if b.size != r.size then some "size-changed" else none,
     if N > maxTT then
       (if N > 4096 then none else
+        if isReduced b && isReduced r && !sameFunctionUnder b r g then some "function-changed(exact walk)" else
         if (List.range samples).all fun k =>
           let v := sampleVal N k
           evalArr r v == evalArr b (fun x => match g x with | some y => (decide (y < N) && v y) | none => false)
